@@ -106,10 +106,19 @@ func (e *Engine) intrinsic(fn *ssa.Function, args []Value) (Value, bool) {
 	if h, ok := stringIntrinsics[name]; ok {
 		return h(e, args), true
 	}
+	if r, ok := e.jsonStreamIntrinsic(fn, name, args); ok {
+		return r, true
+	}
 	switch name {
 	case "encoding/json.Unmarshal":
 		if doc, ok := args[0].(*JSONVal); ok {
 			return e.jsonUnmarshal(doc, args[1].(Iface)), true
+		}
+		if txt, ok := args[0].(*JSONText); ok {
+			if tree := e.jsonTextToTree(txt); tree != nil {
+				return e.jsonUnmarshal(&JSONVal{Node: tree}, args[1].(Iface)), true
+			}
+			return e.newErr("invalid character in JSON text", nil, false), true
 		}
 		if sl, ok := args[0].(Slice); ok && sl.O == nil {
 			return e.newErr("unexpected end of JSON input", nil, false), true
